@@ -34,8 +34,37 @@ fn base_machine() -> RawMachine {
     base
 }
 
+/// Bus histories the control flow must not depend on: the interrupt status register carries key
+/// flags from an earlier key press (with the key interrupt disabled, resp. enabled in the mask).
+fn history_machines(base: &RawMachine) -> Vec<RawMachine> {
+    let mut a = base.clone();
+    a.trigger_key_edge_interrupt();
+    let mut b = base.clone();
+    b.bus_mut().write(0xF9, 0x01);
+    b.trigger_key_edge_interrupt();
+    let mut c = b.clone();
+    c.bus_mut().write(0xF9, 0x00);
+    vec![a, b, c]
+}
+
 /// all successors of the control state (addr, ir) over every input combination
 fn successors(base: &RawMachine, addr: usize, ir: u8) -> Result<(Succ, u64), String> {
+    let mut out = BTreeSet::new();
+    let mut evals = 0u64;
+    if loads_ir(addr) {
+        // the latch of the fetched byte again under the other bus histories
+        for h in history_machines(base) {
+            let (o, e) = successors_from(&h, addr, ir)?;
+            out.extend(o);
+            evals += e;
+        }
+    }
+    let (o, e) = successors_from(base, addr, ir)?;
+    out.extend(o);
+    Ok((out, evals + e))
+}
+
+fn successors_from(base: &RawMachine, addr: usize, ir: u8) -> Result<(Succ, u64), String> {
     let mut out = BTreeSet::new();
     let mut evals = 0u64;
     let bytes: Vec<u8> = if loads_ir(addr) { (0..=255).collect() } else { vec![0x55] };
